@@ -242,6 +242,13 @@ def check_load(w, cl, rec, op, status, val):
     kind, exp = expected(op["loader"], op["name"])
     faulted = bool(cl.fired) or is_corrupt(w, op["name"])
     w.probe("loads")
+    form = op.get("form", "plain")
+    if form in ("upper", "padded", "suffixed"):
+        # not a name the pinned loaders accept: nothing is required - unless a
+        # change starts to accept it, then it names that table
+        w.probe("variant_name_forms")
+        if status != "ok":
+            return
     if status == "ok":
         if kind != "ok":
             # no reference for this (entry point, table): outside the property
